@@ -9,7 +9,9 @@ Record case := mkCase {
   c_keep : bool;                 (* KeepLatestData *)
   c_gx : bool;                   (* probed variant of the PrevData handling *)
   c_script : list act;
-  c_obs : list (list push)       (* pushes observed after each action (delta base found by applying the real patch) *)
+  c_obs : list (list push);      (* pushes observed after each action (delta base found by applying the real patch) *)
+  c_reqs : list ver;             (* the version the real node sent to the backend for the key, one per APollReq of the script *)
+  c_final : list (key * ver)     (* quiescent end after fair poll cycles with a responsive backend: tracked key, newest version *)
 }.
 
 Definition push_eqb (a b : push) : bool :=
@@ -28,8 +30,21 @@ Fixpoint list_eqb {A : Type} (f : A -> A -> bool) (a b : list A) : bool :=
   | _, _ => false
   end.
 
+(* the request side: what version the model's poller puts into each request *)
+Fixpoint model_reqs (keep gx : bool) (s : st) (l : list act) : list ver :=
+  match l with
+  | [] => []
+  | a :: t =>
+      let here := match a with
+                  | APollReq k => match s_ent s k with Some e => [if e_nb e then 0 else e_ver e] | None => [] end
+                  | _ => []
+                  end in
+      here ++ model_reqs keep gx (fst (step keep gx s a)) t
+  end.
+
 Definition corr (c : case) : bool :=
-  list_eqb (list_eqb push_eqb) (snd (run (c_keep c) (c_gx c) init (c_script c))) (c_obs c).
+  list_eqb (list_eqb push_eqb) (snd (run (c_keep c) (c_gx c) init (c_script c))) (c_obs c) &&
+  list_eqb Nat.eqb (model_reqs (c_keep c) (c_gx c) init (c_script c)) (c_reqs c).
 
 (* The property on what the connection saw: versions strictly increase per
    tracked key, a delta applies to the payload the client holds, nothing is
@@ -74,23 +89,50 @@ Definition o_act (o : ost) (a : act) : ost :=
   | _ => o
   end.
 
-Fixpoint oracle_run (o : ost) (script : list act) (obs : list (list push)) : bool :=
+(* request side: while the connection tracks a key, holds no payload for it and no publication for
+   the key is on its way to it ([fly]: publications whose broadcast has not resumed yet), every poll
+   request for the key asks from version 0 (only then a backend that reports changes answers it) *)
+Definition req_ok (o : ost) (fly : list key) (a : act) (reqs : list ver) : bool * list ver :=
+  match a with
+  | APollReq k =>
+      match reqs with
+      | [] => (true, [])      (* no request was made (no entry) *)
+      | r :: rt =>
+          (negb (existsb (Nat.eqb k) (o_keys o) && match o_held o k with None => true | Some _ => false end
+                 && negb (existsb (Nat.eqb k) fly)) || Nat.eqb r 0, rt)
+      end
+  | _ => (true, reqs)
+  end.
+
+(* publications issued and not yet resumed, in the order of the model's list of broadcasts in flight
+   (a poll response is followed at once by its delivery and is not listed) *)
+Definition fly_act (fly : list key) (a : act) : list key :=
+  match a with
+  | APublish k _ => fly ++ [k]
+  | ADeliver i _ => remove_nth i fly
+  | _ => fly
+  end.
+
+Fixpoint oracle_run (o : ost) (fly : list key) (script : list act) (obs : list (list push)) (reqs : list ver) (fin : list (key * ver)) : bool :=
   match script, obs with
-  | [], [] => true
+  | [], [] =>
+      (* quiescent end: every tracked key holds the newest version *)
+      forallb (fun kv => match o_held o (fst kv) with Some h => Nat.eqb h (snd kv) | None => false end) fin
   | a :: t, ps :: pt =>
+      let '(rok, reqs') := req_ok o fly a reqs in
       let o1 := o_act o a in
       let flip_ok := match a with
                      | AEpochFlip => negb (o_sub o) || match o_keys o with [] => true | _ => false end || existsb (fun p => match p with PUnsub => true | _ => false end) ps
                      | _ => true
                      end in
       match o_pushes o1 ps with
-      | Some o2 => flip_ok && oracle_run o2 t pt
+      | Some o2 => rok && flip_ok && oracle_run o2 (fly_act fly a) t pt reqs' fin
       | None => false
       end
   | _, _ => false
   end.
 
 Definition oracle (c : case) : bool :=
-  oracle_run (mkO false (fun _ => None) (fun _ => None) []) (c_script c) (c_obs c).
+  oracle_run (mkO false (fun _ => None) (fun _ => None) []) [] (c_script c) (c_obs c) (c_reqs c) (c_final c).
 
 Definition run (cs : list case) := failing corr oracle cs.
